@@ -111,6 +111,11 @@ def lin(node, env=None) -> Lin | None:
         return None
     if isinstance(node, ast.Subscript):
         return Lin(0, {U(node): 1})
+    if isinstance(node, ast.BoolOp) and isinstance(node.op, ast.Or) and len(node.values) == 2:
+        a, b = node.values
+        if isinstance(b, ast.Constant) and b.value == 0 and not isinstance(b.value, bool) and isinstance(a, (ast.Name, ast.Attribute)):
+            # ``x or 0`` for x: int | None  -- equals x when x is not None, 0 when x is None
+            return Lin(0, {f"({U(a)} or 0)": 1})
     return None
 
 
@@ -150,6 +155,13 @@ def facts_if(cond, truth: bool, env=None) -> list:
             for v in cond.values:
                 out += facts_if(v, truth, env)
             return out
+        if conj and not truth and len(cond.values) == 2:
+            # not (A and X): if A is later known to hold, X is false.  Only None-tests are
+            # supported as premise A (``v is not None and (...)``).
+            prem = facts_if(cond.values[0], True, env)
+            prem = [p for p in prem if not isinstance(p, Lin) and p[0] in ("notnone", "none")]
+            if len(prem) == 1:
+                return [("cond", prem[0], _fact_key(x), x) for x in facts_if(cond.values[1], False, env)]
         return []
     if isinstance(cond, ast.Compare):
         out = []
@@ -180,6 +192,9 @@ def facts_if(cond, truth: bool, env=None) -> list:
                 out.append(("in" if isinstance(o, ast.In) else "notin", U(left), U(right)))
             elif isinstance(o, ast.NotEq):
                 out.append(("ne", U(left), U(right)))
+                la, lb = lin(left, env), lin(right, env)
+                if la is not None and lb is not None:
+                    out.append(("nez", (la - lb).key()))
             else:
                 out += _cmp_facts(left, o, right, env)
                 if isinstance(o, ast.Eq):
@@ -201,12 +216,20 @@ def facts_if(cond, truth: bool, env=None) -> list:
 
 
 def _fact_key(f):
-    return f.key() if isinstance(f, Lin) else f
+    if isinstance(f, Lin):
+        return f.key()
+    if f[0] == "cond":
+        return f[:3]
+    return f
 
 
 def _fact_syms(f) -> set:
     if isinstance(f, Lin):
         return f.syms()
+    if f[0] == "nez":
+        return {s for s, _ in f[1][1]}
+    if f[0] == "cond":
+        return set(f[1][1:]) | _fact_syms(f[3])
     return set(f[1:])
 
 
@@ -236,7 +259,18 @@ class Facts:
         return n
 
     def add(self, f):
+        if not isinstance(f, Lin) and f[0] == "cond":
+            if f[1] in self.d:
+                self.add(f[3])
+                return
+            self.d[_fact_key(f)] = f
+            return
         self.d[_fact_key(f)] = f
+        if not isinstance(f, Lin) and f[0] in ("notnone", "none"):
+            # promote conditional facts whose premise is now known
+            for k, c in list(self.d.items()):
+                if not isinstance(c, Lin) and c[0] == "cond" and c[1] == f:
+                    self.d[_fact_key(c[3])] = c[3]
 
     def kill(self, target: str):
         for k in [k for k, f in self.d.items() if any(_mentions(s, target) for s in _fact_syms(f))]:
@@ -266,6 +300,29 @@ class Facts:
         if goal.is_const():
             return goal.c >= 0
         pool = list(self.lins()) + list(extra_axioms)
+        # axioms for ``(x or 0)`` symbols from None-ness facts
+        syms_all = set(goal.syms())
+        for f in pool:
+            syms_all |= f.syms()
+        for s in syms_all:
+            if s.startswith("(") and s.endswith(" or 0)"):
+                x = s[1:-6]
+                if ("notnone", x) in self.d:
+                    pool.append(Lin(0, {s: 1, x: -1}))
+                    pool.append(Lin(0, {s: -1, x: 1}))
+                elif ("none", x) in self.d:
+                    pool.append(Lin(0, {s: 1}))
+                    pool.append(Lin(0, {s: -1}))
+        # e != 0 together with e >= 0 gives e >= 1 (integers)
+        keys = {f.key() for f in pool}
+        for t in self.tagged("nez"):
+            c, terms = t[1]
+            e = Lin(c, dict(terms))
+            if e.key() in keys:
+                pool.append(e - Lin(1))
+            ne = e.scale(-1)
+            if ne.key() in keys:
+                pool.append(ne - Lin(1))
         for s in goal.syms():
             if s.startswith("len("):
                 pool.append(Lin(0, {s: 1}))
